@@ -64,9 +64,15 @@ func (l *IANURIFQDNOrIP) Execute(c *x509.Certificate) *lint.LintResult {
 			if err != nil {
 				return &lint.LintResult{Status: lint.Error}
 			}
-			host := parsedUrl.Host
-			if !util.AuthIsFQDNOrIP(host) {
-				return &lint.LintResult{Status: lint.Error}
+			// Same rule as e_ext_san_uri_host_not_fqdn_or_ip: only URIs with an
+			// authority component are required to carry an FQDN or IP host.
+			if parsedUrl.Opaque == "" {
+				if parsedUrl.Host == "" {
+					return &lint.LintResult{Status: lint.Error}
+				}
+				if !util.IsFQDNOrIP(parsedUrl.Host) {
+					return &lint.LintResult{Status: lint.Error}
+				}
 			}
 		}
 	}
